@@ -428,6 +428,8 @@ class DecimalFieldFormat(AbstractFieldFormat):
             message = "value is %r but must be a decimal number: %s" % (value, error)
             raise errors.FieldValueError(message)
 
+        if result.is_nan():
+            raise errors.FieldValueError("value is %r but must be a decimal number" % value)
         try:
             self.valid_range.validate(self._field_name, result)
         except errors.RangeValueError as error:
